@@ -59,5 +59,21 @@ TVarGraph ==
            = {<<m, n>> \in (1..Len(Ev.inp)) \X (1..Len(Ev.inp)) : m \in SeqSet(Ev.inp[n])})
   /\ UNCHANGED <<tnow, tin>> /\ Step
 
-TNext == TVarGraph \/ TBuilder \/ TEpochStart \/ TAdvance \/ TSetSeed \/ TGroup
+\* dist_reg_mcmc wiring (model/distreg.py:279-333): one Gibbs kernel per smoothing variance,
+\* one IWLS kernel per coefficient vector, jitter functions for exactly these keys, and the
+\* kernels' blocks partition the model's parameter variables
+TWiring ==
+  /\ IsEvent("distreg_wiring")
+  /\ LET exp == {<<"GibbsKernel", g.name \o "_tau2">> : g \in {x \in SeqToSet(Ev.groups) : x.has_tau2}}
+                 \cup {<<"IWLSKernel", g.name \o "_beta">> : g \in {x \in SeqToSet(Ev.groups) : x.has_beta}}
+         got == {<<Ev.kernels[i].type, Ev.kernels[i].keys[1]>> : i \in 1..Len(Ev.kernels)}
+     IN /\ Chk("one_kernel_per_tau2_and_beta", got = exp /\ Len(Ev.kernels) = Cardinality(exp))
+        /\ Chk("one_key_per_kernel", \A i \in 1..Len(Ev.kernels) : Len(Ev.kernels[i].keys) = 1)
+        /\ Chk("jitter_functions_for_exactly_the_kernel_keys",
+               SeqToSet(Ev.jitter_keys) = {e[2] : e \in exp})
+        /\ Chk("kernel_blocks_partition_the_parameters",
+               SeqToSet(Ev.param_vars) = {e[2] : e \in exp})
+  /\ UNCHANGED <<tnow, tin>> /\ Step
+
+TNext == TWiring \/ TVarGraph \/ TBuilder \/ TEpochStart \/ TAdvance \/ TSetSeed \/ TGroup
 =============================================================================
